@@ -114,10 +114,10 @@ TIME_END = [1300.0, 4600.0]
 # integrated-variable value patterns (index: variable, then segment); 'p' all non-zero,
 # 'z' contains zeros (a repeated point with value 0 must stay 0)
 VALS = {
-    'p': [[3.0, 5.0, 7.0, 11.0], [0.25, 1.0e6, 2.5, 40.0], [1.0, 1.0, 1.0, 1.0]],
-    'z': [[0.0, 5.0, 0.0, 2.0], [1.5, 0.0, 0.0, 1.0], [0.0, 0.0, 0.0, 0.0]],
+    'p': [[3.0, 5.0, 7.0, 11.0, 13.0, 17.0, 19.0], [0.25, 1.0e6, 2.5, 40.0, 8.0, 0.5, 6.0], [1.0] * 7],
+    'z': [[0.0, 5.0, 0.0, 2.0, 0.0, 1.0, 0.0], [1.5, 0.0, 0.0, 1.0, 0.0, 0.0, 2.0], [0.0] * 7],
 }
-STATE = [[0.0, 1.0, 2.0, 3.0, 4.0], [250.5, -3.0, 0.0, 1e-3, 9e9]]  # state var 0 is the segment tag
+STATE = [[0.0, 1.0, 2.0, 3.0, 4.0, 5.0, 6.0, 7.0], [250.5, -3.0, 0.0, 1e-3, 9e9, 1.0, -1.0, 2.0]]  # state var 0 is the segment tag
 
 
 def axis_alphabet(edges, tier):
@@ -285,6 +285,7 @@ def sublattices(tier, seed=0):
             cs.append(_case(gid, pts, ns=ns, ni=ni, vals=vp))
     subs.append(dict(name='varcount', axes={'path': len(hp), 'n_state': [0, 1, 2], 'n_integrated': [0, 1, 2, 3], 'values': ['p', 'z']}, cases=cs))
     subs += tiny_sublattices()
+    subs += world_sublattices()
     subs += nano_sublattices()
     subs += even_grid_sublattices()
     subs += sequence_sublattices()
@@ -296,6 +297,35 @@ def sublattices(tier, seed=0):
         name='sequence-long', axes={'start offset': nseq, 'stride': stride, 'gridder': ['same object']},
         cases=[dict(seq=flat[r::stride], rel='same') for r in range(nseq)],
     ))  # fmt: skip
+    return subs
+
+
+# one antimeridian crossing inside a long multi-segment path: every contiguous stretch (2..7
+# points, eastbound and westbound) of a ring of longitudes round the globe that contains the
+# +-180 step exactly once. This crosses (sign of first longitude, sign of last longitude, an end
+# exactly on longitude 0) x (antimeridian crossing in the first / a middle / the last segment)
+# x (Greenwich crossing before / after / not at all); every single segment spans < 180 degrees.
+WORLD_RING = [0, 10250, 90250, 179500, -179500, -90250, -10250]
+
+
+def world_sublattices():
+    subs = []
+    n = len(WORLD_RING)
+    for gid, lat_sets in (('deg1', ([40500, 41250, 40750, 42250, 41500, 40250, 41750], [40500] * 7)), ('half2', ([-41250, -40750, -41500, -40250, -41000, -40750, -41750], [-41250] * 7))):
+        cs = []
+        for k in range(2, n + 1):
+            for i in range(n):
+                lons = [WORLD_RING[(i + m) % n] for m in range(k)]
+                if sum(1 for a, b in zip(lons[:-1], lons[1:]) if abs(b - a) > HALF) != 1:
+                    continue
+                for lats in lat_sets:
+                    pts = list(zip(lats[:k], lons))
+                    cs.append(_case(gid, pts))
+                    cs.append(_case(gid, pts[::-1]))
+        subs.append(dict(
+            name=f'am-world:{gid}', cases=cs,
+            axes={'ring_lon_mdeg': WORLD_RING, 'points': [2, 3, 4, 5, 6, 7], 'start': n, 'direction': ['east', 'west'], 'latitudes': ['varying', 'constant']},
+        ))  # fmt: skip
     return subs
 
 
